@@ -491,9 +491,11 @@ func c12Offset(ctx *run.Ctx, id run.CaseID, r *gen.Rng) {
 	h = append(h, step{Kind: "exec", Delta: gen.PickOf(r, 2.0, -2, 7), Pre: true})
 	digest := run.Digest(h)
 	ml, at := gen.PickOf(r, 1.0, 2, 4), gen.PickOf(r, 0, 0.25)
+	optPC, optRev, optMerge := r.Chance(0.3), r.Chance(0.3), r.Chance(0.8)
 	execs := 0
 	ctx.Guard(digest, "offset-history", h, func() {
-		co := clip.NewClipperOffset(ml, at, false, false)
+		co := clip.NewClipperOffset(ml, at, optPC, optRev)
+		co.MergeGroups = optMerge
 		var adds []step
 		sol := junkPaths()
 		for i, op := range h {
@@ -506,7 +508,8 @@ func c12Offset(ctx *run.Ctx, id run.CaseID, r *gen.Rng) {
 				sol = Paths{}
 			}
 			co.Execute64(op.Delta, &sol)
-			f := clip.NewClipperOffset(ml, at, false, false)
+			f := clip.NewClipperOffset(ml, at, optPC, optRev)
+			f.MergeGroups = optMerge
 			for _, a := range adds {
 				f.AddPaths(a.Paths, clip.JoinType(a.JT), clip.EndType(a.ET))
 			}
